@@ -20,7 +20,7 @@ func init() { props["C19"] = c19 }
 
 func c19(c *Ctx) {
 	maxKeys := c.N(5, 6)
-	c.Rule = fmt.Sprintf("exhaustive: 16 value kinds x 6 predicates; every path of 1..%d keys x every subset of `?` marks x every key-state vector in {present, null, absent}^n x {IsNull, IsNotNull, IsEmpty, IsNotEmpty, IsNullOrEmpty, IsNotNullOrEmpty, no predicate}. Oracle: three-valued guard computed in the harness. Non-trivial = at least one key is null or absent; distinct by (query, data).", maxKeys)
+	c.Rule = fmt.Sprintf("exhaustive: 21 value kinds (nil slices and maps of several Go types included) x 6 predicates; every path of 1..%d keys (for <=3 keys also with the query keys in upper case) x every subset of `?` marks x every key-state vector in {present, null, absent}^n x {IsNull, IsNotNull, IsEmpty, IsNotEmpty, IsNullOrEmpty, IsNotNullOrEmpty, no predicate}. Oracle: three-valued guard computed in the harness. Non-trivial = at least one key is null or absent; distinct by (query, data).", maxKeys)
 	type vk struct {
 		name        string
 		d           *D
@@ -44,6 +44,12 @@ func c19(c *Ctx) {
 		{"zero-struct", &D{Tag: "st", Fs: []h.Field{{Name: "A", Exported: true, V: h.Int("int", 0)}, {Name: "B", Exported: true, V: h.Str("")}}}, false, true, false},
 		{"struct", &D{Tag: "st", Fs: []h.Field{{Name: "A", Exported: true, V: h.Int("int", 1)}}}, false, false, false},
 		{"nil-slice", &D{Tag: "sl", Ety: "any", IsNil: true, Xs: []*D{}}, true, true, false},
+		// nil slices and maps of other Go types (an unset `Tags []string` / `Counts map[string]int` field)
+		{"nil-string-slice", &D{Tag: "sl", Ety: "str", IsNil: true, Xs: []*D{}}, true, true, true},
+		{"nil-int-slice", &D{Tag: "sl", Ety: "int", IsNil: true, Xs: []*D{}}, true, true, true},
+		{"nil-map", &D{Tag: "m", Kty: "str", Ety: "any", IsNil: true}, true, true, true},
+		{"nil-int-map", &D{Tag: "m", Kty: "str", Ety: "int", IsNil: true}, true, true, true},
+		{"nil-slice-in-struct", &D{Tag: "st", Fs: []h.Field{{Name: "Tags", Exported: true, V: &D{Tag: "sl", Ety: "str", IsNil: true, Xs: []*D{}}}, {Name: "N", Exported: true, V: h.Int("int", 1)}}}, false, false, false},
 	}
 	preds := []struct {
 		name      string
@@ -59,7 +65,15 @@ func c19(c *Ctx) {
 	}
 	for _, k := range kinds {
 		for _, p := range preds {
-			ec := c.AddEval("$.v."+p.name+"()", h.Obj("v", k.d), "predicates:"+k.name, true, true)
+			q, doc := "$.v."+p.name+"()", h.Obj("v", k.d)
+			if k.name == "nil-slice-in-struct" {
+				// the nil slice read out of a struct field: null
+				ec := c.AddEval("$.v.Tags."+p.name+"()", doc, "predicates:"+k.name, true, true)
+				if !p.usesEmpty {
+					ec.Check = boolCheck(p.f(true, true))
+				}
+			}
+			ec := c.AddEval(q, doc, "predicates:"+k.name, true, true)
 			if p.usesEmpty && k.emptyUnspec {
 				continue // IsEmpty / IsNotEmpty on null: unspecified (the model still has to agree)
 			}
@@ -127,6 +141,12 @@ func c19(c *Ctx) {
 					parts = append(parts, k)
 				}
 				path := "$." + strings.Join(parts, ".")
+				// the same path with its keys spelled in upper case (keys are matched without regard to letter
+				// case; the oracle is the same) — for paths of up to 3 keys
+				paths := []string{path}
+				if n <= 3 {
+					paths = append(paths, "$."+strings.ToUpper(strings.Join(parts, ".")))
+				}
 				// oracle: walk
 				//   value present: continue; at a null or absent key i:
 				//   absent & unmarked -> KeyNotFound;  null & unmarked & more keys follow -> error (nil access);
@@ -165,15 +185,37 @@ func c19(c *Ctx) {
 					break
 				}
 				nontriv := seenStop
-				for _, p := range preds {
-					ec := c.AddEval(path+"."+p.name+"()", doc, fmt.Sprintf("guard:%d-keys:%s", n, res), true, nontriv)
+				for _, path := range paths {
+					for _, p := range preds {
+						ec := c.AddEval(path+"."+p.name+"()", doc, fmt.Sprintf("guard:%d-keys:%s", n, res), true, nontriv)
+						switch res {
+						case "value":
+							ec.Check = boolCheck(p.f(false, false))
+						case "null":
+							if !p.usesEmpty {
+								ec.Check = boolCheck(p.f(true, true))
+							}
+						case "knf":
+							ec.Check = func(o h.Outcome) string {
+								if o.Class != "knf" {
+									return "an absent unmarked key must fail with ErrKeyNotFound; got " + o.Class
+								}
+								return ""
+							}
+						case "err", "knf-or-err":
+							ec.Check = mustError
+						case "unspecified-end":
+							// the function still receives null after a trailing absent marked key
+							if !p.usesEmpty {
+								ec.Check = boolCheck(p.f(true, true))
+							}
+						}
+					}
+					// the bare path
+					ec := c.AddEval(path, doc, fmt.Sprintf("guard-bare:%d-keys:%s", n, res), true, nontriv)
 					switch res {
 					case "value":
-						ec.Check = boolCheck(p.f(false, false))
-					case "null":
-						if !p.usesEmpty {
-							ec.Check = boolCheck(p.f(true, true))
-						}
+						ec.Check = strCheck("leaf")
 					case "knf":
 						ec.Check = func(o h.Outcome) string {
 							if o.Class != "knf" {
@@ -183,28 +225,8 @@ func c19(c *Ctx) {
 						}
 					case "err", "knf-or-err":
 						ec.Check = mustError
-					case "unspecified-end":
-						// the function still receives null after a trailing absent marked key
-						if !p.usesEmpty {
-							ec.Check = boolCheck(p.f(true, true))
-						}
 					}
-				}
-				// the bare path
-				ec := c.AddEval(path, doc, fmt.Sprintf("guard-bare:%d-keys:%s", n, res), true, nontriv)
-				switch res {
-				case "value":
-					ec.Check = strCheck("leaf")
-				case "knf":
-					ec.Check = func(o h.Outcome) string {
-						if o.Class != "knf" {
-							return "an absent unmarked key must fail with ErrKeyNotFound; got " + o.Class
-						}
-						return ""
-					}
-				case "err", "knf-or-err":
-					ec.Check = mustError
-				}
+				} // paths
 			}
 		}
 	}
